@@ -14,10 +14,10 @@
              finished its store step (1603): the pushes *in flight* on the side;
      [led] = the ledger: the values of the pushes whose fetch_add (1602) landed on the side since
              its last count reset (1609), in fetch_add order;
-     [nst] = number of pushes that started (1601) on the side since its last count reset;
+     [stv] = the values of the pushes that started (1601) on the side since its last count reset;
    and [late] = some 1606 step retired a side while a push was in flight on it (the pattern of the
-   open known finding C16-late-push), [glog] = every completed drain with the ledger of its side
-   at the moment it read the count (1607).                                                      *)
+   open known finding C16-late-push), [glog] = every completed drain with the ledger and the started
+   list of its side at the moment it read the count (1607).                                                      *)
 From Coq Require Import List NArith Bool.
 Import ListNotations.
 Require Import MV.Common.Interleave MV.C16.Model.
@@ -32,17 +32,17 @@ Inductive pc :=
 | K5 (k : option N)
 | K6 (k : option N) (up : bool)
 | K7 (k : option N) (up : bool)
-| K8 (sd : bool) (n len take i : N) (acc : list N) (W : list N)
-| K9 (sd : bool) (n len : N) (acc : list N) (W : list N)
-| K10 (d : drained) (W : list N)
+| K8 (sd : bool) (n len take i : N) (acc : list N) (W St : list N)
+| K9 (sd : bool) (n len : N) (acc : list N) (W St : list N)
+| K10 (d : drained) (W St : list N)
 | E11
 | E12 (up : bool)
 | Done.
 
 Record local := { me : N; pcl : pc; todo : list op; results : list mout (* newest first *) }.
-Record sidest := { res : reservoir; led : list N; fl : list N; nst : N }.
+Record sidest := { res : reservoir; led : list N; fl : list N; stv : list N }.
 Record shared := { sp : sidest; ss : sidest; usep : bool; lock : option N;
-                   late : bool; glog : list (drained * list N) }.
+                   late : bool; glog : list (drained * list N * list N) }.
 
 Definition side (s : shared) (sd : bool) : sidest := if sd then sp s else ss s.
 Definition set_side (s : shared) (sd : bool) (x : sidest) : shared :=
@@ -74,15 +74,15 @@ Definition step (s : shared) (l : local) : option (shared * local) :=
   | Start => Some (s, enter (me l) (todo l) (results l))
   | P1 v c =>
       let sd := usep s in let x := side s sd in
-      Some (set_side s sd {| res := res x; led := led x; fl := me l :: fl x; nst := nst x + 1 |}, goto l (P2 sd v c))
+      Some (set_side s sd {| res := res x; led := led x; fl := me l :: fl x; stv := stv x ++ [v] |}, goto l (P2 sd v c))
   | P2 sd v c =>
       let x := side s sd in let r := res x in
-      Some (set_side s sd {| res := {| values := values r; count := count r + 1 |}; led := led x ++ [v]; fl := fl x; nst := nst x |},
+      Some (set_side s sd {| res := {| values := values r; count := count r + 1 |}; led := led x ++ [v]; fl := fl x; stv := stv x |},
             goto l (P3 sd (count r) v c))
   | P3 sd idx v c =>
       let x := side s sd in
       let '(r', p) := store_step (res x) idx v c in
-      Some (set_side s sd {| res := r'; led := led x; fl := without (me l) (fl x); nst := nst x |}, finish l (MPush p))
+      Some (set_side s sd {| res := r'; led := led x; fl := without (me l) (fl x); stv := stv x |}, finish l (MPush p))
   | K4 k =>
       match lock s with
       | Some _ => Some (s, l)                                   (* blocked: stutter *)
@@ -99,16 +99,16 @@ Definition step (s : shared) (l : local) : option (shared * local) :=
       let n := count r in
       let len := if capacity r <? n then capacity r else n in
       let take := match k with None => len | Some k' => N.min k' len end in
-      Some (s, goto l (if take =? 0 then K9 up n len [] (led x) else K8 up n len take 0 [] (led x)))
-  | K8 sd n len take i acc W =>
+      Some (s, goto l (if take =? 0 then K9 up n len [] (led x) (stv x) else K8 up n len take 0 [] (led x) (stv x)))
+  | K8 sd n len take i acc W St =>
       let acc' := acc ++ [nth (N.to_nat i) (values (res (side s sd))) 0] in
-      Some (s, goto l (if i + 1 <? take then K8 sd n len take (i + 1) acc' W else K9 sd n len acc' W))
-  | K9 sd n len acc W =>
+      Some (s, goto l (if i + 1 <? take then K8 sd n len take (i + 1) acc' W St else K9 sd n len acc' W St))
+  | K9 sd n len acc W St =>
       let x := side s sd in let r := res x in
-      Some (set_side s sd {| res := {| values := values r; count := 0 |}; led := []; fl := fl x; nst := 0 |},
-            goto l (K10 {| d_vals := acc; d_len := len; d_unsampled := n |} W))
-  | K10 d W =>
-      Some ({| sp := sp s; ss := ss s; usep := usep s; lock := None; late := late s; glog := (d, W) :: glog s |},
+      Some (set_side s sd {| res := {| values := values r; count := 0 |}; led := []; fl := fl x; stv := [] |},
+            goto l (K10 {| d_vals := acc; d_len := len; d_unsampled := n |} W St))
+  | K10 d W St =>
+      Some ({| sp := sp s; ss := ss s; usep := usep s; lock := None; late := late s; glog := (d, W, St) :: glog s |},
             finish l (MConsume d))
   | E11 => Some (s, goto l (E12 (usep s)))
   | E12 up => Some (s, finish l (MEmpty (count (res (side s up)) =? 0)))
@@ -118,11 +118,11 @@ Definition step (s : shared) (l : local) : option (shared * local) :=
 Definition site (l : local) : N :=
   match pcl l with
   | Start => 0 | P1 _ _ => 1601 | P2 _ _ _ => 1602 | P3 _ _ _ _ => 1603
-  | K4 _ => 1604 | K5 _ => 1605 | K6 _ _ => 1606 | K7 _ _ => 1607 | K8 _ _ _ _ _ _ _ => 1608
-  | K9 _ _ _ _ _ => 1609 | K10 _ _ => 1610 | E11 => 1611 | E12 _ => 1612 | Done => 0
+  | K4 _ => 1604 | K5 _ => 1605 | K6 _ _ => 1606 | K7 _ _ => 1607 | K8 _ _ _ _ _ _ _ _ => 1608
+  | K9 _ _ _ _ _ _ => 1609 | K10 _ _ _ => 1610 | E11 => 1611 | E12 _ => 1612 | Done => 0
   end.
 
-Definition side0 (cap : nat) : sidest := {| res := with_capacity cap; led := []; fl := []; nst := 0 |}.
+Definition side0 (cap : nat) : sidest := {| res := with_capacity cap; led := []; fl := []; stv := [] |}.
 Definition init_shared (cap : nat) : shared :=
   {| sp := side0 cap; ss := side0 cap; usep := true; lock := None; late := false; glog := [] |}.
 Definition init_local (m : N) (p : list op) : local := {| me := m; pcl := Start; todo := p; results := [] |}.
